@@ -6,10 +6,14 @@ use crate::engine::{Args, Ctx, ReplayDoc};
 
 pub mod c13;
 pub mod c13b;
+pub mod envelope_props;
 
 pub fn run(args: &Args) -> ! {
     match args.property.as_str() {
         "C13" => c13::run(args),
+        "C08" => envelope_props::run_c08(args),
+        "C09" => envelope_props::run_c09(args),
+        "C10" => envelope_props::run_c10(args),
         p => {
             eprintln!("INFRA: unknown property '{}'", p);
             std::process::exit(2)
@@ -34,6 +38,7 @@ pub fn level_of(id: &str) -> &'static str {
 pub fn replay_one(ctx: &Ctx, doc: &ReplayDoc) {
     match doc.property.as_str() {
         "C13" => c13::replay_one(ctx, doc),
+        "C08" | "C09" | "C10" => envelope_props::replay_one(ctx, doc),
         p => ctx.infra_error(format!("unknown property '{}' in replay file", p)),
     }
 }
